@@ -440,6 +440,23 @@ func (db *DB) processIterations() {
 }
 
 func (db *DB) doProcessIterations(iterations []*iteration) {
+	// Iterations that differ in whether they include the memstore cannot share
+	// a scan (a disk-only query would otherwise see unflushed data whenever it
+	// happens to be coalesced with a memstore-inclusive one).
+	var withMemStore, withoutMemStore []*iteration
+	for _, it := range iterations {
+		if it.includeMemStore {
+			withMemStore = append(withMemStore, it)
+		} else {
+			withoutMemStore = append(withoutMemStore, it)
+		}
+	}
+	if len(withMemStore) > 0 && len(withoutMemStore) > 0 {
+		db.doProcessIterations(withMemStore)
+		db.doProcessIterations(withoutMemStore)
+		return
+	}
+
 	var maxDeadline time.Time
 	includeMemStore := false
 	allOutFields := make(core.Fields, 0)
